@@ -23,6 +23,13 @@ def _s(v) -> str:
     return '' if v is None else enc(str(v))
 
 
+def _c(v) -> str:
+    """comment text, line-wise with surrounding blanks trimmed (the observation rule of C14)"""
+    if v is None:
+        return ''
+    return enc('\n'.join(ln.strip() for ln in str(v).split('\n')))
+
+
 def _default(v) -> Dict[str, str]:
     from pydbml.classes import Expression
     if v is None:
@@ -72,7 +79,7 @@ def project_db(db) -> Dict[str, Any]:
             cols.append({'name': _s(c.name), 'type': ty, 'pk': bool(c.pk), 'unique': bool(c.unique),
                          'notnull': bool(c.not_null), 'autoinc': bool(c.autoinc),
                          'default': _default(c.default), 'note': _note(c.note),
-                         'props': _props(c.properties), 'comment': _s(c.comment)})
+                         'props': _props(c.properties), 'comment': _c(c.comment)})
         idxs = []
         for x in t.indexes:
             subj = []
@@ -84,28 +91,28 @@ def project_db(db) -> Dict[str, Any]:
                 else:
                     subj.append({'k': 'raw', 'v': enc(str(sj))})
             idxs.append({'subj': subj, 'name': _s(x.name), 'unique': bool(x.unique), 'pk': bool(x.pk),
-                         'type': _s(x.type), 'note': _note(x.note), 'comment': _s(x.comment)})
+                         'type': _s(x.type), 'note': _note(x.note), 'comment': _c(x.comment)})
         tables.append({'schema': _s(t.schema), 'name': _s(t.name), 'alias': _s(t.alias),
                        'color': _s(t.header_color), 'note': _note(t.note), 'props': _props(t.properties),
-                       'comment': _s(t.comment), 'cols': cols, 'idxs': idxs})
-    enums = [{'schema': _s(e.schema), 'name': _s(e.name), 'comment': _s(e.comment),
-              'items': [{'name': _s(i.name), 'note': _note(i.note), 'comment': _s(i.comment)} for i in e.items]}
+                       'comment': _c(t.comment), 'cols': cols, 'idxs': idxs})
+    enums = [{'schema': _s(e.schema), 'name': _s(e.name), 'comment': _c(e.comment),
+              'items': [{'name': _s(i.name), 'note': _note(i.note), 'comment': _c(i.comment)} for i in e.items]}
              for e in db.enums]
     refs = []
     for r in db.refs:
         t1 = _table_pos(db, r.col1[0]) if r.col1 else 0
         t2 = _table_pos(db, r.col2[0]) if r.col2 else 0
         refs.append({'type': _s(r.type), 'name': _s(r.name), 'onupdate': _s(r.on_update), 'ondelete': _s(r.on_delete),
-                     'comment': _s(r.comment), 'inline': bool(r.inline),
+                     'comment': _c(r.comment), 'inline': bool(r.inline),
                      't1': t1, 'c1': [_idx(db.tables[t1 - 1].columns, c) if t1 else 0 for c in r.col1],
                      't2': t2, 'c2': [_idx(db.tables[t2 - 1].columns, c) if t2 else 0 for c in r.col2]})
     groups = [{'name': _s(g.name), 'items': [_idx(db.tables, i) for i in g.items], 'note': _note(g.note),
-               'color': _s(g.color), 'comment': _s(g.comment)} for g in db.table_groups]
+               'color': _s(g.color), 'comment': _c(g.comment)} for g in db.table_groups]
     notes = [{'name': _s(n.name), 'text': enc(n.text or '')} for n in db.sticky_notes]
     p = db.project
     project = ({'present': False, 'name': '', 'items': [], 'note': '', 'comment': ''} if p is None else
                {'present': True, 'name': _s(p.name), 'items': _props(p.items), 'note': _note(p.note),
-                'comment': _s(p.comment)})
+                'comment': _c(p.comment)})
     return {'kind': 'db', 'tables': tables, 'enums': enums, 'refs': refs, 'groups': groups, 'notes': notes,
             'project': project, 'allowprops': bool(db.allow_properties)}
 
